@@ -52,13 +52,13 @@ total!(c02_q_u8, 12, 14, |d| d.u8());
 total!(c02_q_word, 12, 14, |d| d.word());
 total!(c02_q_integer, 12, 14, |d| d.integer());
 total!(c02_q_char, 12, 14, |d| d.char());
-total!(c02_t_string, 12, 14, |d| d.string());
+total!(c02_x_string, 12, 14, |d| d.string());
 total!(c02_t_list_u8, 12, 14, |d| d.decode_list_with(|d| d.u8()));
 // bound: arbitrary buffer of symbolic length 0..=3 (filler / block loops: <= 24 bit steps, unwind 27), entry after 0..=7 skipped bits
 total!(c02_q_bytes, 3, 27, |d| d.bytes());
 total!(c02_q_filler, 3, 27, |d| d.filler());
 // bound: arbitrary buffer of symbolic length 0..=5 (unwind 44), entry after 0..=7 skipped bits
-total!(c02_t_bytes5, 5, 44, |d| d.bytes());
+total!(c02_x_bytes5, 5, 44, |d| d.bytes());
 total!(c02_t_filler5, 5, 44, |d| d.filler());
 
 /// bits8(n) for every n (also n = 0 and n > 8)
@@ -99,7 +99,7 @@ total_top!(c02_q_top_char, char, 3, 27);
 total_top!(c02_q_top_vec, Vec<u8>, 3, 27);
 // bound: flat::decode::<T>(arbitrary buffer of symbolic length 0..=5) incl. the final filler, unwind 44
 total_top!(c02_t_top_usize5, usize, 5, 44);
-total_top!(c02_t_top_vec5, Vec<u8>, 5, 44);
+total_top!(c02_x_top_vec5, Vec<u8>, 5, 44);
 
 
 /// vacuity twin: must come back FAILED
